@@ -2,9 +2,9 @@
 from __future__ import annotations
 from engine.registry import Registry
 from engine import sortmodel, polymodel
-from contracts import option, sorting, align, compare, order_lemmas, leading, dispatch, construct, dispatchfn, baseclass, derivative, division, statics
+from contracts import option, sorting, align, compare, order_lemmas, leading, dispatch, construct, dispatchfn, baseclass, derivative, division, statics, call
 
-_CONTRACT_MODULES = [option, sorting, align, compare, leading, dispatch, construct, dispatchfn, baseclass, derivative, division]
+_CONTRACT_MODULES = [option, sorting, align, compare, leading, dispatch, construct, dispatchfn, baseclass, derivative, division, call]
 
 ALL_CONTRACTS = {}
 for _m in _CONTRACT_MODULES:
@@ -111,9 +111,22 @@ PROPS = {
                 "'target region is fresh or a declared output', with regions tracked through views (.values columns, ravel). "
                 "Re-posed here for functions whose anchors the property names; byte-level snapshots of arguments around 82 public "
                 "operations are the bounded run-time check.", trusted_base=COMMON_TRUSTED),
-    "C02": dict(level="other", contracts=[], explanation="Bounded run-time contracts only so far (conc/checks_c02.py): exact "
-                "evaluation/substitution oracle; the contract of poly_function.call is not yet under the VC generator.",
-                trusted_base=COMMON_TRUSTED, assumptions=["machine integer arithmetic outside int64 is out of scope (numpy semantics)"]),
+    "C02": dict(level="other", contracts=["numpoly.call"],
+                explanation="call (real source) is proved for numeric evaluation at scalar points: for ANY number of terms, exponents, "
+                "coefficient values and polynomial array shape, result[i] = sum over all terms of C(t,i) * prod_d a_d**E(t,d) (ghost "
+                "sum defined by recursion; loop invariant over the term loop, first iteration peeled), where a_d is the point the "
+                "caller designated for the d-th indeterminate by position or by name; plain array of shape poly.shape; TypeError "
+                "and nothing else for a name supplied twice or an unknown keyword. Enumerated: indeterminate tuples (q0,), (q0,q1) "
+                "and 10 ways of supplying the points. x**e is uninterpreted, so what is proved is binding, completeness of the term "
+                "sum, coefficient/exponent pairing, int() conversion of stored exponents and the shape. Array-valued points, "
+                "partial evaluation, polynomial substitution, staged evaluation and machine-number kinds: bounded run-time checks "
+                "(conc/checks_c02.py, exact oracle).",
+                trusted_base=COMMON_TRUSTED + ["numpy axioms: ones/zeros of shape (), scalar*array, outer+reshape for a 0-d second operand",
+                                               "assumed shape-only contract of numpoly.polynomial(number)"],
+                assumptions=["A1 (reals; x**e uninterpreted)", "machine integer arithmetic outside int64 is out of scope (numpy semantics)",
+                             "D <= 2 and binding patterns enumerated"],
+                not_decided=["array-valued points, partial evaluation, polynomial substitution, staged evaluation (bounded)",
+                             "independence of the numeric type carrying an argument (bounded)"]),
     "C04": dict(
         level="other",
         contracts=["numpoly.align_shape", "numpoly.align_exponents", "numpoly.align_polynomials"],
